@@ -155,3 +155,36 @@ def with_param_obs(body):
     """variant for a function with one i32 parameter (local 0) and one declared local (local 1): both are
     reported through $obs before the final end, so that instrumentation which clobbers them is observable"""
     return body[:-1] + [["local.get", 0], ["call", OBS], ["local.get", 1], ["call", OBS], ["end"]]
+
+
+def with_result(body):
+    """variant for a function returning one i32: every way of leaving the function carries a distinct constant
+    (fall-through 55, return 66, br to the function label 77, br_if to it 88).  None if the body has a br_table
+    with an arm to the function label (arms of different arity)."""
+    from .machine import Prog
+    pr = Prog(body)
+    out = []
+    i = 0
+    n = len(body)
+    while i < n:
+        op = body[i]
+        k = op[0]
+        depth = len(pr.labels[i])
+        if k == "return":
+            out += [["i32.const", 66], op]
+        elif k == "br" and op[1] == depth:
+            out += [["i32.const", 77], op]
+        elif k == "call" and op[1] == 0 and i + 1 < n and body[i + 1][0] == "br_if" and body[i + 1][1] == len(pr.labels[i + 1]):
+            out += [["i32.const", 88], op, body[i + 1], ["drop"]]
+            i += 1
+        elif k == "br_table":
+            ds = list(op[1]) + [op[2]]
+            if any(d == depth for d in ds):
+                return None
+            out.append(op)
+        elif i == n - 1:
+            out += [["i32.const", 55], op]
+        else:
+            out.append(op)
+        i += 1
+    return out
